@@ -95,6 +95,8 @@ CONFORMANCE = [
      "why": "GMP addCol: parameter order, and the objective is stored for maximization (model: maxObj = sense == MAXIMIZE ? obj : -obj)"},
     {"file": "src/soplex/spxlpbase.h", "regex": r"void addRow\(const S\* lhsValue, const S\* rowValues, const int\* rowIndices, int rowSize,\s*const S\* rhsValue\)",
      "why": "GMP addRow: parameter order"},
+    {"file": "src/soplex.hpp", "regex": r"case SYNCMODE_ONLYREAL:\s*if\(_rationalLP != nullptr\)\s*\{\s*_rationalLP->~SPxLPRational\(\);\s*spx_free\(_rationalLP\);",
+     "why": "real-only mode has no rational LP (wrapper passes _rationalLP == nullptr)"},
     {"file": "src/soplex/dataset.h", "regex": r"if\(perm\[k\] >= 0\)\s*// j has not been removed ...\s*perm\[k\] = j\+\+;",
      "why": "DataSet::remove(int perm[]) is an order-preserving compaction that leaves negative marks untouched (LP stub removeRows/removeCols)"},
     {"file": "src/soplex/spxlpbase.h", "regex": r"template < class S >\s*void changeLhs\(int i, const S\* newLhs\)\s*\{\s*LPRowSetBase<R>::lhs_w\(i\) = \*newLhs;",
@@ -111,6 +113,9 @@ TRUSTED = [
     "DataArray model: raw array of 2*CAP+2 cells handed in by the wrapper; append/reSize/removeLast assert that they stay within it (CAP bounds object sizes only, except where an instance says 'completely unwound')",
     "SoPlexBase::_isConsistent() relations are preconditions: |_rowTypes| == numRowsRational, |_colTypes| == numColsRational, and under SYNCMODE_AUTO both LPs have equal dimensions; when !_isRealLPLoaded && _hasBasis the basis status arrays have the real LP's dimensions",
     "_solver.basis().status() is an arbitrary SPxBasisBase::SPxStatus input; that _realLP == &_solver when _isRealLPLoaded (virtual dispatch to the solver's overrides) is not modelled: the contracts state what is forwarded to _realLP",
+    "in SYNCMODE_ONLYREAL there is no rational LP (_rationalLP == nullptr: setIntParam(SYNCMODE, ONLYREAL) frees it, conformance-checked); in the other modes it exists",
+    "objective sense of both LP models == (intParam(OBJSENSE) == OBJSENSE_MAXIMIZE); maxObj(i) = sense == MAXIMIZE ? obj(i) : -obj(i) (SPxLPBase stores the objective for maximization)",
+    "GMP entry points: mpq_t is modelled as a one-element array of a struct holding the rational model value; Rational(mpq) copies it verbatim; an array of mpq_t has the layout of the rational array; DSVectorBase<R>(v) is the converting copy of the opaque sparse-vector tag",
     "assert() compiled out (NDEBUG semantics)",
 ]
 
